@@ -4,7 +4,6 @@ from vg.compat import v2 as vg
 
 def slice_open_polyline_by_plane(vertices, plane):
     from .. import Plane
-    from ..plane import intersect_segment_with_plane
 
     num_v = vg.shape.check(locals(), "vertices", (-1, 3))
     if num_v == 0:
@@ -14,6 +13,15 @@ def slice_open_polyline_by_plane(vertices, plane):
 
     signed_distances = plane.signed_distance(vertices)
     signs_of_vertices = np.sign(signed_distances)
+
+    def intersection_with_plane(start_point, end_point):
+        # The two points are on opposite sides of the plane according to
+        # `plane.signed_distance()`. Interpolate using those same signed
+        # distances: the parameter is then between 0 and 1 even when rounding
+        # has put a point a hair's breadth from the plane, where an
+        # independently computed parameter can fall just outside the segment.
+        d_start, d_end = plane.signed_distance(np.array([start_point, end_point]))
+        return start_point + d_start / (d_start - d_end) * (end_point - start_point)
 
     (transition_points,) = (signs_of_vertices[:-1] != signs_of_vertices[1:]).nonzero()
     components = np.vsplit(vertices, transition_points + 1)
@@ -36,12 +44,7 @@ def slice_open_polyline_by_plane(vertices, plane):
         if sign_of_adjacent_vertex == 0:
             prepend = adjacent_vertex
         else:
-            prepend = intersect_segment_with_plane(
-                start_points=adjacent_vertex,
-                segment_vectors=verts_in_front[0] - adjacent_vertex,
-                points_on_plane=plane.reference_point,
-                plane_normals=plane.normal,
-            )
+            prepend = intersection_with_plane(adjacent_vertex, verts_in_front[0])
     else:
         prepend = np.zeros((0, 3))
 
@@ -53,12 +56,7 @@ def slice_open_polyline_by_plane(vertices, plane):
             append = adjacent_vertex
         else:
             last_vert = verts_in_front[-1]
-            append = intersect_segment_with_plane(
-                start_points=last_vert,
-                segment_vectors=adjacent_vertex - last_vert,
-                points_on_plane=plane.reference_point,
-                plane_normals=plane.normal,
-            )
+            append = intersection_with_plane(last_vert, adjacent_vertex)
     else:
         append = np.zeros((0, 3))
 
